@@ -5081,3 +5081,19 @@ mod tests {
         }
     }
 }
+
+// ========================================================================
+// Verification hooks (only with `--cfg crrl_verif`).
+
+#[cfg(crrl_verif)]
+impl Point {
+    /// Raw internal coordinates (X, S, Z, T).
+    pub fn verif_coords(&self) -> [GFb254; 4] {
+        [self.X, self.S, self.Z, self.T]
+    }
+
+    /// Rebuild a point from raw internal coordinates (not validated).
+    pub fn verif_from_coords(c: &[GFb254; 4]) -> Self {
+        Self { X: c[0], S: c[1], Z: c[2], T: c[3] }
+    }
+}
